@@ -153,7 +153,7 @@ var stripFrags = []string{"/github.com/aws/", "/github.com/!azure/", "/google.go
 	"/github.com/fsnotify/", "/github.com/kevinburke/", "/github.com/hashicorp/", "/github.com/imdario/", "/github.com/src-d/", "/github.com/sergi/", "/github.com/xanzy/", "/github.com/emirpasic/",
 	"/github.com/jbenet/", "/github.com/mitchellh/", "/github.com/pelletier/", "/github.com/bgentry/", "/github.com/arvados/cgofuse", "/github.com/bradleypeabody/", "/github.com/go-ldap/", "/github.com/go-asn1-ber/",
 	"/src/crypto/tls", "/src/crypto/x509", "/src/net/http/httptest", "/src/vendor/", "/src/crypto/elliptic", "/src/crypto/internal/", "/src/math/big", "/src/crypto/ecdsa", "/src/crypto/rsa", "/src/crypto/ed25519",
-	"/src/encoding/asn1", "/src/compress/", "/src/debug/", "/src/go/", "/src/text/template", "/src/html/", "/src/database/", "/src/image/", "/src/archive/", "/src/mime/multipart", "/src/net/http/internal", "/src/net/smtp", "/src/net/mail"}
+	"/src/encoding/asn1", "/src/compress/", "/src/debug/", "/src/go/", "/src/text/template", "/src/html/", "/src/database/", "/src/image/", "/src/archive/", "/src/mime/multipart", "/src/net/http/internal/testcert", "/src/net/smtp", "/src/net/mail"}
 
 func parseFileStripped(fset *token.FileSet, filename string, src []byte) (*ast.File, error) {
 	f, err := parser.ParseFile(fset, filename, src, parser.AllErrors|parser.ParseComments)
@@ -167,6 +167,9 @@ func parseFileStripped(fset *token.FileSet, filename string, src []byte) (*ast.F
 			strip = true
 			break
 		}
+	}
+	if strings.Contains(lf, "/src/vendor/golang.org/x/net/http/httpguts/") {
+		strip = false // header/cookie token syntax used by net/http's own request parsing
 	}
 	if strip {
 		defer blankUnusedImports(f)
